@@ -545,6 +545,36 @@ pub fn execute(case: &W2Case, cache_checks: bool, per_insertion: bool) -> crate:
                 })
             })));
         }
+        if std::env::var_os("VSIM_TRACE_AMOUNT").is_some() {
+            // triage aid: job bookkeeping of the (possibly partial) individual and activities reached after the end of their
+            // time window, after every applied insertion; reads the individual only and keeps the observer of the case
+            // (if any) in place, so the execution is the recorded one
+            let previous = vrp_core::verif::set_insertion_observer(None);
+            vrp_core::verif::set_insertion_observer(Some(std::rc::Rc::new(move |ctx: &InsertionContext, site: vrp_core::verif::InsertionSite| {
+                if let Some(previous) = previous.as_ref() {
+                    previous(ctx, site);
+                }
+                if site != vrp_core::verif::InsertionSite::Applied {
+                    return;
+                }
+                sys::monitor(|| {
+                    let s = &ctx.solution;
+                    let late: Vec<String> = s.routes.iter().flat_map(|rc| {
+                        let veh = vrp_core::models::problem::VehicleIdDimension::get_vehicle_id(&rc.route().actor.vehicle.dimens).cloned().unwrap_or_default();
+                        rc.route().tour.all_activities().filter(|a| a.schedule.arrival > a.place.time.end + 1e-6).map(move |a| format!("{}:{} arrival {} > {}", veh, a.retrieve_job().map(|j| job_key(&j)).unwrap_or_else(|| "depot".into()), a.schedule.arrival, a.place.time.end)).collect::<Vec<_>>()
+                    }).collect();
+                    if !late.is_empty() {
+                        let bt = format!("{}", std::backtrace::Backtrace::force_capture());
+                        let stack: Vec<&str> = bt.lines().filter(|l| l.contains("vrp_core::") && !l.contains("verif")).take(14).collect();
+                        crate::say!("LATE {:?}\n{}", late, stack.join("\n"));
+                    }
+                    let keys = |it: &mut dyn Iterator<Item = &vrp_core::models::problem::Job>| it.map(job_key).filter(|k| k.contains("reload") || k.contains("break")).collect::<Vec<_>>();
+                    crate::say!("AMOUNT {} of {} routes [{}] required {} {:?} ignored {} {:?} unassigned {} {:?}", s.get_jobs_amount(), ctx.problem.jobs.size(),
+                        s.routes.iter().map(|rc| format!("{}:{}", vrp_core::models::problem::VehicleIdDimension::get_vehicle_id(&rc.route().actor.vehicle.dimens).cloned().unwrap_or_default(), rc.route().tour.jobs().map(|j| job_key(&j)).collect::<Vec<_>>().join(" "))).collect::<Vec<_>>().join(" | "),
+                        s.required.len(), keys(&mut s.required.iter()), s.ignored.len(), keys(&mut s.ignored.iter()), s.unassigned.len(), keys(&mut s.unassigned.keys()));
+                })
+            })));
+        }
         let init = make_recreate(&case.init, env.random.clone());
         let s0 = InsertionContext::new(problem.clone(), env.clone());
         if !problem.locks.is_empty() {
@@ -625,6 +655,8 @@ pub fn execute(case: &W2Case, cache_checks: bool, per_insertion: bool) -> crate:
                             c.solution.routes.iter().map(|rc| format!("{}:{}", vrp_core::models::problem::VehicleIdDimension::get_vehicle_id(&rc.route().actor.vehicle.dimens).cloned().unwrap_or_default(), rc.route().tour.all_activities().filter_map(|a| a.retrieve_job().map(|j| job_key(&j))).collect::<Vec<_>>().join(" "))).collect::<Vec<_>>().join(" | ")
                         };
                         crate::say!("PARENT of bad step {}: {} || required {:?} unassigned {:?}", op, brief(&current), current.solution.required.iter().map(job_key).collect::<Vec<_>>(), current.solution.unassigned.keys().map(job_key).collect::<Vec<_>>());
+                        crate::say!("PARENT ignored {:?} locked {:?} jobs amount {} of {}", current.solution.ignored.iter().map(job_key).collect::<Vec<_>>(), current.solution.locked.iter().map(job_key).collect::<Vec<_>>(), current.solution.get_jobs_amount(), current.problem.jobs.size());
+                        crate::say!("CHILD  ignored {:?} locked {:?} jobs amount {} of {}", child.solution.ignored.iter().map(job_key).collect::<Vec<_>>(), child.solution.locked.iter().map(job_key).collect::<Vec<_>>(), child.solution.get_jobs_amount(), child.problem.jobs.size());
                         crate::say!("CHILD  of bad step {}: {} || required {:?} unassigned {:?}", op, brief(child), child.solution.required.iter().map(job_key).collect::<Vec<_>>(), child.solution.unassigned.keys().map(job_key).collect::<Vec<_>>());
                     }
                 }
